@@ -37,6 +37,20 @@ CLAIMED = {
 }
 
 CLAIMED.update({
+    "C03": dict(
+        engine="Sampler", category="model_checking",
+        text=("TLC checks the sampler protocol of specs/Sampler.tla (population kinds with 1-3 blocks in any order, the "
+              "individual kind) for every proposal noise, alpha level (alpha >= 1 included) and uniform level: "
+              "OneDrawPerDecision, OneProposalPerDraw, OnlyBlockTouched, AcceptIffBelow, DecisionLocal, RejectedIsSnapshot. "
+              "Real sample() calls of Gibbs / FastGibbs / Metropolis-Hastings / individual samplers in fits with and without "
+              "annealing, MCMC personalizations and non-finite scenarios are recorded (torch.randn / torch.rand outputs, "
+              "state snapshots) together with from-scratch evaluations of D = d_attach + beta * d_regul at the old and proposed "
+              "values; in half of the runs the uniform draws are chosen 0.2 % below / above the reference alpha (the abstract "
+              "levels of the specification made concrete). SamplerTrace.tla decides every step."),
+        note=("Ties |u - alpha| <= 1e-5 alpha accept either outcome (counted). The mixture model's target is transcribed as "
+              "built. Generator quality is assumed. Trusted: TLC, the recorder, float64 evaluation of exp(-D)."),
+        technique="TLA+ spec + TLC exhaustive; code->spec trace validation; directed draws at spec levels",
+        design_ref="4/C03, 3.2"),
     "C05": dict(
         engine="Saem", category="model_checking",
         text=("TLC checks PhaseRule, StepIndexRule, BurnInLength, PowerRefusedInv, BatchUpdate, SampledOnce and Termination of "
@@ -86,6 +100,7 @@ CLAIMED.update({
 })
 
 ENGINES = {
+    "Sampler": dict(path="specs/Sampler.tla", kind="TLA+ state machine of one Metropolis-within-Gibbs sampler (+ SamplerCore.tla, SamplerTrace.tla)"),
     "Saem": dict(path="specs/Saem.tla", kind="TLA+ state machine of one MCMC-SAEM run (+ SaemTrace.tla, MC_Saem*.cfg)"),
     "VarGraph": dict(path="specs/VarGraph.tla", kind="TLA+ transcription of the dependency-graph builder (+ VarGraphTrace.tla)"),
     "StateCache": dict(path="specs/StateCache.tla", kind="TLA+ state machine of the cached variable graph (+ StateCacheTrace.tla)"),
